@@ -289,7 +289,8 @@ class QueryCreator(BaseQueryCreator):
         equal a plain string literal.
         """
         if attr == "id":
-            return "FILTER(STRENDS(STR(?{0}), \"#{1}\")) .\n".format(variable, value)
+            return "FILTER(STRENDS(STR(?{0}), {1})) .\n".format(
+                variable, QueryCreator._literal("#%s" % value))
 
         rdf_attr = fmt.rdf_map(attr)
         if not rdf_attr:
@@ -298,8 +299,26 @@ class QueryCreator(BaseQueryCreator):
         re_sub = re.sub(str(odmlns), "odml:", rdf_attr)
         attr_var = "{0}_attr{1}".format(variable, index)
         lines = "?{0} {1} ?{2} .\n".format(variable, re_sub, attr_var)
-        lines += "FILTER(STR(?{0}) = \"{1}\") .\n".format(attr_var, value)
+        lines += "FILTER(STR(?{0}) = {1}) .\n".format(attr_var, QueryCreator._literal(value))
         return lines
+
+    @staticmethod
+    def _literal(value):
+        """
+        Returns the SPARQL string literal denoting the text of *value*: a backslash,
+        a double quote, a line break or a tab in the text is written as escape.
+        """
+        text = str(value)
+        for char, escape in (("\\", "\\\\"), ("\"", "\\\""), ("\n", "\\n"),
+                             ("\r", "\\r"), ("\t", "\\t")):
+            text = text.replace(char, escape)
+
+        # Codepoint escapes (backslash, 'u', four or eight hex digits) are resolved in the whole
+        # query text before anything else: an escaped backslash must not form one with
+        # the character that follows it.
+        text = re.sub(r"\\\\([uU])",
+                      lambda found: "\\\\\\U000000%02X" % ord(found.group(1)), text)
+        return "\"%s\"" % text
 
     def _prepare_query(self):
         """
